@@ -53,3 +53,6 @@ Print Assumptions c17_binop_form_transparent.
 Print Assumptions c17_builtin_form_transparent.
 Print Assumptions c17_table_all_transparent.
 Print Assumptions c17_non_forwarded.
+Print Assumptions c17_unop_form_transparent.
+Print Assumptions c17_method_call_form_refuted.
+Print Assumptions c17_nocancel.
